@@ -14,9 +14,26 @@ cls(G + 'MetaGrid', fields=dict(grid='obj:mapproxy.grid:TileGrid', meta_size='tu
 exception('GridError', 'Exception')
 exception('NoTiles', 'GridError')
 
+def _same_names(ex, st, a, b):
+    """two grid lists carry the same level names at the same positions"""
+    import z3
+    from pyvc.values import VBool
+    from pyvc.values import uid
+    na, nb = st.heap[a.ref]['names'], st.heap[b.ref]['names']
+    ia, ib = st.heap[a.ref]['$idx'], st.heap[b.ref]['$idx']
+    i = z3.Int(uid('qn'))
+    s = z3.String(uid('qs'))
+    return VBool(z3.And(na.length() == nb.length(),
+                        z3.ForAll([i], z3.Implies(z3.And(0 <= i, i < na.length()), na.elem(i).t == nb.elem(i).t)),
+                        z3.ForAll([s], ia(s) == ib(s))))
+
+
+ghost('same_names', ['a', 'b'], _same_names, concrete=lambda a, b: list(a._names) == list(b._names))
+
 # representation invariant of TileGrid as far as the arithmetic needs it (established by __init__/_calc_grids)
 ghost('grid_wf', ['g'], """
     g.levels == len(g.resolutions) and len(g.grid_sizes) == g.levels and g.levels >= 1
+    and same_names(g.resolutions, g.grid_sizes)
     and g.bbox[0] < g.bbox[2] and g.bbox[1] < g.bbox[3]
     and g.tile_size[0] >= 1 and g.tile_size[1] >= 1
     and (g.flipped_y_axis == (g.origin == 'ul')) and (g.origin == 'ul' or g.origin == 'll')
